@@ -45,6 +45,11 @@ var c20Behaviours = []c20Behaviour{
 	{name: "cluster-500-echo", auth: "digest", cluster: atlasfake.Fault{Kind: "status", Status: 500}, challenge: true},
 	{name: "host-401-echo", auth: "digest", hostFault: atlasfake.Fault{Kind: "status", Status: 401}, challenge: true},
 	{name: "host-500-echo", auth: "digest", hostFault: atlasfake.Fault{Kind: "status", Status: 500}, challenge: true},
+	// transient refusals of an already authenticated download (Retry-After: 0): whether or not the client tries again
+	{name: "host-429-retry-after", auth: "digest", hostFault: atlasfake.Fault{Kind: "status", Status: 429}, challenge: true},
+	{name: "host-503-retry-after", auth: "digest", hostFault: atlasfake.Fault{Kind: "status", Status: 503}, challenge: true},
+	{name: "host-502-retry-after", auth: "digest", hostFault: atlasfake.Fault{Kind: "status", Status: 502}, challenge: true},
+	{name: "cluster-503-retry-after", auth: "digest", cluster: atlasfake.Fault{Kind: "status", Status: 503}, challenge: true},
 	{name: "host-reset", auth: "digest", hostFault: atlasfake.Fault{Kind: "reset"}, challenge: true},
 	{name: "host-cut-half", auth: "digest", hostFault: atlasfake.Fault{Kind: "cut", CutAt: 40}, challenge: true},
 	{name: "host-not-gzip", auth: "digest", notGzip: true, challenge: true},
@@ -56,6 +61,9 @@ var c20Keys = []string{
 	"AbC+/=xyz==k3+/zq9",
 	"Zk3mQp8Lx2Vn7Rt5Yw1Bc6Df0Gh4Js9KaUeIoPlMnBvCxZqWsEdRfTgYhUjIkOl12",
 	`sp ace"quote'\back`,
+	// characters that mean something to a regular expression / a format string / a shell
+	`Kq7(xP2+mZ9-w4Tn`,
+	`*st[ar]{2,}|^$.?%s%d%!x\`,
 }
 
 var c20Pubs = []string{"pubKEYzq7", "pub:colon@x"}
